@@ -99,7 +99,7 @@ func canonOps() []OpM {
 	str := &V{K: "str", S: "v${x}"}
 	obj := &V{K: "obj", Keys: []string{"k", "for"}, L: []V{{K: "num", N: -3}, {K: "list", L: []V{{K: "bool", B: true}}}}}
 	hd := &RawB{Fn: "lex", Src: "<<EOT\nraw ${r}\nEOT"}
-	ml := &RawB{Fn: "lex", Src: "[\n  1,\n  2,\n]"}
+	ml := &RawB{Fn: "object", Keys: []RawB{{Fn: "ident", Name: "k"}, {Fn: "ident", Name: "l"}}, Args: []RawB{{Fn: "lex", Src: "<<EOT\nobj ${o}\nEOT"}, {Fn: "lex", Src: "[\n  1,\n  2,\n]"}}}
 	tru := true
 	tr := []TravStep{{Attr: "f"}, {Str: strp("k")}, {Num: i64p(2)}, {Bool: &tru}, {Null: true}}
 	in1, in2 := []int{0}, []int{0, 0}
